@@ -2374,7 +2374,6 @@ class sptensor:
 
         # Find which subscripts already exist and their locations
         _, tf = tt_ismember_rows(newsubs, self.subs)
-        loc = np.where(tf >= 0)[0].astype(int)
 
         # Split into three groups for processing:
         #
@@ -2390,16 +2389,18 @@ class sptensor:
 
         # TF+1 for logical consideration because 0 is valid index
         # and -1 is our null flag
-        idxa = np.logical_and(tf + 1, newvals)[0]
-        idxb = np.logical_and(tf + 1, np.logical_not(newvals))[0]
-        idxc = np.logical_and(np.logical_not(tf + 1), newvals)[0]
+        exists = tf >= 0
+        nonzero = np.ravel(newvals) != 0
+        idxa = np.logical_and(exists, nonzero)
+        idxb = np.logical_and(exists, np.logical_not(nonzero))
+        idxc = np.logical_and(np.logical_not(exists), nonzero)
 
         # Process Group A: Changing values
         if np.sum(idxa) > 0:
             self.vals[tf[idxa]] = newvals[idxa]
         # Process Group B: Removing Values
         if np.sum(idxb) > 0:
-            removesubs = loc[idxb]
+            removesubs = tf[idxb]
             keepsubs = np.setdiff1d(range(0, self.nnz), removesubs)
             self.subs = self.subs[keepsubs, :]
             self.vals = self.vals[keepsubs]
